@@ -44,6 +44,7 @@ class World(object):
         self.played = []            # (pid, tag)
         self.hang_ignores_sigterm = False
         self.unprintable_errors = False
+        self.exit_code = 3
 
     def effective(self, tag):
         b = self.behaviour.get(tag, 'equal')
@@ -117,7 +118,7 @@ def behave(world, tag):
         sim.sleep(0.3)
     elif b == 'worker_exit':
         world.run.fault('worker_exit')
-        raise SystemExit(3)
+        raise SystemExit(world.exit_code)       # the replayed code calls sys.exit(): status 0 is as dead as status 3
     elif b == 'worker_abort':
         world.run.fault('worker_exit')
         proc = world.mp.current_proc()
@@ -242,6 +243,10 @@ class Scenario(object):
         self.late_eps = [tape.choice([0.0, -0.01, 0.01, 0.0005]) for _ in range(self.n)]
         self.hang_ignores_sigterm = bool(tape.draw(2))
         self.unprintable_errors = tape.draw(3) == 2
+        self.exit_code = tape.choice([3, 0, 1])
+        self.exit_delay = tape.choice([0.0, 0.0, 0.4, 1.6])      # a retiring worker may take a while to go (non-daemon threads, atexit)
+        self.consumer_pause = tape.choice([0.0, 0.0, 0.0, 3.0, 7.0])  # the consumer of the lazy generator is busy between two results
+        self.kill_fails = tape.draw(8) == 7                       # os.kill raises OSError (EPERM): tolerated by the code, the worker lives on
         self.idle_kill_at = tape.draw(self.n)
 
     def describe(self):
@@ -278,6 +283,8 @@ def run_scenario(run, tape, sc):
     world.dedicated = sc.dedicated
     world.hang_ignores_sigterm = sc.hang_ignores_sigterm
     world.unprintable_errors = sc.unprintable_errors
+    world.exit_code = sc.exit_code
+    mp.exit_delay = sc.exit_delay
     out.world, out.mp, out.sim = world, mp, sim
     cassette, ids = make_recordings(world, sc.n)
     if sc.duplicates and len(ids) > 2:
@@ -289,6 +296,7 @@ def run_scenario(run, tape, sc):
             world.late_eps[tag] = sc.late_eps[i]
     out.ids = ids
     osproxy = mp.os_proxy(_real_os)
+    osproxy.kill_raises = bool(getattr(sc, 'kill_fails', False)) and getattr(sc, 'allow_kill_failure', False)
 
     def main():
         cfg = CompareExecutionConfig(keep_results_in_comparison=sc.keep, compare_in_dedicated_process=sc.dedicated,
@@ -307,6 +315,8 @@ def run_scenario(run, tape, sc):
                         except RuntimeError as ex:
                             out.consumer_error = ex
                     break
+                if sc.consumer_pause and k and k % 2 == 0:
+                    sim.sleep(sc.consumer_pause)
                 t0 = sim.now
                 try:
                     c = next(gen)
@@ -325,10 +335,12 @@ def run_scenario(run, tape, sc):
                         live[-1].killed_by = 'external'
                         live[-1].kill()
         finally:
+            if sc.consumer_pause:
+                sim.sleep(sc.consumer_pause)       # ... and also before it lets go of the generator
             gen.close()
             out.finished = True
         out.alive_after = [p.pid for p in mp.processes if p.alive_quiet()]
-        sim.sleep(0.05 + 0.02 + sc.slow_start + (0.01 if sc.jitter else 0))
+        sim.sleep(0.05 + 0.02 + sc.slow_start + sc.exit_delay + (0.01 if sc.jitter else 0))
         out.alive_after_grace = [p.pid for p in mp.processes if p.alive_quiet()]
         if killer is not None:
             sim.join(killer, 1.0)
